@@ -247,12 +247,12 @@ inline uint8_t canary(uint32_t serial, size_t i) { return (uint8_t)(serial * 131
 // positions of a block that carry (and are checked for) the canary
 template <class F>
 void for_canary(const Block& b, F f) {
-  if (b.bytes <= 1024) {
+  if (b.bytes <= 256) {
     for (size_t i = 0; i < b.bytes; i++) f(i);
   } else {
-    for (size_t i = 0; i < 256; i++) f(i);
-    for (size_t i = 256; i + 256 < b.bytes; i += 61) f(i);
-    for (size_t i = b.bytes - 256; i < b.bytes; i++) f(i);
+    for (size_t i = 0; i < 96; i++) f(i);
+    for (size_t i = 96; i + 96 < b.bytes; i += 97) f(i);
+    for (size_t i = b.bytes - 96; i < b.bytes; i++) f(i);
   }
 }
 
@@ -509,7 +509,7 @@ void run(const uint8_t* data, size_t size) {
 
   size_t moves = 0, releases = 0;
   int ops = 0;
-  while (!d.done() && ops < 400) {
+  while (!d.done() && ops < 250) {
     ops++;
     uint8_t op = d.u8();
     int si = (op >> 6) % 3;
@@ -536,7 +536,7 @@ void run(const uint8_t* data, size_t size) {
         case 3: bytes = ps - delta % 17; break;                         // just below / at a page
         case 4: bytes = ps + 1 + delta % 8; break;                      // just above a page: oversize
         case 5: bytes = 2 * ps + delta; break;
-        case 6: bytes = 65536 + delta; break;
+        case 6: bytes = (delta & 1) ? 65536 + delta : 3 * ps + delta; break;
         case 7: bytes = ps / 2 + delta % 9; break;                      // two per page at most: consumes pages quickly
         case 8: {                                                       // around what is left in the current page
           Content& c = cs.contents[s.content];
@@ -559,7 +559,9 @@ void run(const uint8_t* data, size_t size) {
       unsigned form = d.below(8);
       unsigned tk = form == 3 ? d.below(6) : 0;
       unsigned rep = 1;
-      if (op >= 22) rep = 1 + d.below(40);  // bursts roll the page array over
+      if (op >= 22) rep = 1 + d.below(24);  // bursts roll the page array over
+      if (bytes > 4 * ps && rep > 3) rep = 3;  // (big blocks are expensive to fill and verify)
+      if (cs.blocks.size() > 400) rep = 1;
       size_t align = (size_t)1 << d.below(max_shift + 1);
       for (unsigned r = 0; r < rep; r++) {
         begin_op(s);
@@ -692,8 +694,10 @@ void run(const uint8_t* data, size_t size) {
       // ---- contains ----
       Content& c = cs.contents[s.content];
       note("r%d.C", si);
-      for (int bi : c.blocks) {
-        Block& b = cs.blocks[bi];
+      size_t nb = c.blocks.size();
+      for (size_t q = 0; q < nb; q++) {
+        if (q >= 8 && q + 48 < nb) continue;  // the oldest and the most recent blocks (contains() walks every page)
+        Block& b = cs.blocks[c.blocks[q]];
         if (!s.res->contains(b.ptr) || !s.res->contains(b.ptr + b.bytes - 1) || !s.res->contains(b.ptr + b.bytes / 2))
           failc("contains() is false for a byte of live block #%u (%p, %zu bytes)", b.serial, (void*)b.ptr, b.bytes);
       }
@@ -849,6 +853,16 @@ void run(const uint8_t* data, size_t size) {
 }
 
 }  // namespace
+
+// ASan / UBSan reports do not pass through vfz::fail: print the decoded case next to them
+extern "C" void __asan_set_error_report_callback(void (*)(const char*));
+static void vf_print_case_on_report(const char*) {
+  if (g) fprintf(stderr, "CASE: %s\n", g->desc.c_str());
+}
+extern "C" int LLVMFuzzerInitialize(int*, char***) {
+  __asan_set_error_report_callback(&vf_print_case_on_report);
+  return 0;
+}
 
 extern "C" int LLVMFuzzerTestOneInput(const uint8_t* data, size_t size) {
   vfz::begin_case(RULE);
